@@ -24,6 +24,11 @@ pub trait Bridge: Sized + Clone + Debug + PartialEq {
     fn gen(rng: &mut Rng, mag: Mag) -> Self::O;
     /// Some(description) if the stored representation is not the canonical one
     fn canon_err(&self) -> Option<String> { None }
+    /// For composite machine-integer types: Some(true) if the operation (0 add, 1 sub, 2 mul) on a, b lies in the
+    /// *minimum exactness domain* — every intermediate of the schoolbook algorithm that cancels common factors
+    /// first (rationals: common denominator = lcm; products cross-reduced) is representable — so that a panic
+    /// there is not an unavoidable intermediate overflow. None: no such rule for this type.
+    fn in_min_exact_domain(_op: u8, _a: &Self::O, _b: &Self::O) -> Option<bool> { None }
 }
 
 #[derive(Clone, Copy, PartialEq, Eq, Debug)]
@@ -119,6 +124,22 @@ where I: Integer + Bridge<O = Z>, for<'x> &'x I: IntOps<I> {
         Some(Ratio::new(n, d))
     }
     fn bounded() -> bool { I::bounded() }
+    fn in_min_exact_domain(op: u8, a: &Q, b: &Q) -> Option<bool> {
+        if !I::bounded() { return None }
+        // symmetric range: the value and its negative (so also its absolute value, needed by any gcd) are representable
+        let fits = |x: &Z| I::try_from_o(x).is_some() && I::try_from_o(&(-x)).is_some();
+        match op {
+            0 | 1 => {
+                let g = <Z as crate::oracle::num::OEuc>::gcd(&a.d, &b.d);
+                let l = &(&a.d / &g) * &b.d;
+                let x = &a.n * &(&l / &a.d);
+                let y = &b.n * &(&l / &b.d);
+                let sum = if op == 0 { &x + &y } else { &x - &y };
+                Some(fits(&l) && fits(&x) && fits(&y) && fits(&sum))
+            }
+            _ => None,
+        }
+    }
     fn canon_err(&self) -> Option<String> {
         let (n, d) = (self.numer().to_o(), self.denom().to_o());
         if d.is_zero() { return Some("zero denominator".into()) }
